@@ -176,6 +176,16 @@ func (e *Eng) evalCallInner(st *State, call *ast.CallExpr) []*Val {
 			old := e.eval(st, u.X)
 			delta := e.eval(st, call.Args[1])
 			if old.Sort == "Int" && delta.Sort == "Int" {
+				if acls, atext := e.anchorClauses(call); len(acls) > 0 {
+					env := e.specEnvFromState(st)
+					env["arg1"] = delta
+					for _, ac := range acls {
+						if ac.Kind == "requires" {
+							g := e.evalSpec(st, ac.Expr, env, e.oldEnv)
+							e.oblige(st, "at", shortText(atext)+" requires "+ac.Src, g.T, call.Pos())
+						}
+					}
+				}
 				t := e.info.TypeOf(u.X)
 				nv := scalar(e.define("a", "Int", e.wrap(t, fmt.Sprintf("(+ %s %s)", old.T, delta.T))), "Int", t)
 				e.assign(st, u.X, nv)
